@@ -158,6 +158,7 @@ func init() {
 				add("mmap-to-std-k2-k1", merge(base, p("k", 2, "k2", 1, "ops", opPut|opDelete, "index", 3, "shards", 1, "io", 1, "r_io", 1)))
 				add("std-to-mmap-k2-k1", merge(base, p("k", 2, "k2", 1, "ops", opPut|opDelete, "index", 3, "shards", 1, "io", 0, "r_io", 2)))
 				add("merge-k3", merge(base, p("k", 3, "k2", 1, "ops", opPut|opDelete|opMerge, "vlens", 2, "index", 1, "shards", 1)))
+				add("two-spellings-merge-k2-k2", merge(base, p("spelling", 1, "k", 2, "k2", 2, "ops", opPut|opDelete|opMerge, "vlens", 1, "index", 3, "shards", 1)))
 				// 12 data files (ids 0..11) before the history: file-name parsing, id ordering, two-digit ids
 				add("twelve-files-k2-k1", merge(base, p("fill", 12, "k", 2, "k2", 1, "ops", opPut|opDelete, "vlens", 1, "index", 3, "shards", 1, "dfs_lo", 20, "dfs_hi", 20)))
 				add("cfgsweep-k2", merge(base, p("cfgsweep", 2, "k", 2, "k2", 0, "ops", opPut|opDelete|opBatch, "bmax", 1, "vlens", 1, "r_index", 2, "r_shards", 2, "dfs_lo", 40, "dfs_hi", 40)))
@@ -338,7 +339,7 @@ func init() {
 	register(&CheckDef{
 		ID:    "C17",
 		Title: "Stat and space accounting are exact, and data files respect the size limit",
-		Reach: []string{"done", "oversized-file", "batch-committed", "restarted", "merged", "many-files", "merge-refused-by-ratio", "merge-allowed-by-ratio"},
+		Reach: []string{"done", "oversized-file", "batch-committed", "restarted", "merged", "many-files", "merge-refused-by-ratio", "merge-allowed-by-ratio", "recovered-stat-checked"},
 		Jobs: func(tier string) []JobSpec {
 			var js []JobSpec
 			add := func(name string, params map[string]int64) {
@@ -354,6 +355,9 @@ func init() {
 				add("twelve-files-k2", merge(base, p("fill", 12, "k", 2, "ops", opPut|opDelete|opMerge|opRestart, "vlens", 1, "dfs_lo", 20, "dfs_hi", 20)))
 				add("cfgsweep-k2", merge(base, p("cfgsweep", 2, "k", 2, "ops", opPut|opDelete|opRestart, "vlens", 1, "dfs_lo", 40, "dfs_hi", 40)))
 				add("batch-put-delete-cycles-then-filler", merge(base, p("k", 1, "ops", opBatch, "bcycles", 3, "bmax", 1, "vlens", 4, "vbig", 25, "vbig2", -60, "dfs_lo", 100, "dfs_hi", 200)))
+				// Stat on a database RECOVERED from a crash (interrupted batches, torn tails): the crash harness with C17's oracle
+				js = append(js, JobSpec{Name: "stat-after-crashed-batch", Harness: "root", Func: "verifHarnessCrash", Params: merge(base, p("prop", 17, "statcheck", 1, "preput", 1, "k", 1, "ops", opBatch, "bmax", 3, "vlens", 1, "dfs_lo", 120, "dfs_hi", 160, "after", 1)), Scale: scaleDF(32), ReplayRestore: true})
+				js = append(js, JobSpec{Name: "stat-after-power-loss", Harness: "root", Func: "verifHarnessCrash", Params: merge(base, p("prop", 17, "statcheck", 1, "powerloss", 1, "k", 2, "ops", opPut|opDelete|opSync, "vlens", 2, "dfs_lo", 60, "dfs_hi", 100, "after", 1)), Scale: scaleDF(32), ReplayRestore: true})
 				// 40-byte keys: three committed keys, then one batch of up to 3 puts/deletes of them
 				add("long-keys-batch-of-3", merge(base, p("ckeys", 6, "fill", 3, "k", 1, "ops", opBatch, "bmax", 3, "vlens", 1, "dfs_lo", 200, "dfs_hi", 420)))
 				// merge-ratio policy with the 256 MiB floor scaled to 20 bytes and DataFileMergeRatio 0.5
@@ -382,7 +386,7 @@ func init() {
 	register(&CheckDef{
 		ID:    "C06",
 		Title: "Merge preserves every key's value and actually reclaims the garbage",
-		Reach: []string{"done", "merge-done", "merged-record-checked", "fewer-files-out", "batch-committed", "second-generation", "many-files", "adopted-under-other-configuration"},
+		Reach: []string{"done", "merge-done", "merged-record-checked", "fewer-files-out", "batch-committed", "second-generation", "many-files", "adopted-under-other-configuration", "other-spelling"},
 		Jobs: func(tier string) []JobSpec {
 			var js []JobSpec
 			add := func(name string, params map[string]int64) {
@@ -396,6 +400,8 @@ func init() {
 				add("btree-mmap-k2", merge(base, p("k", 2, "ops", opPut|opDelete, "index", 1, "io", 1, "post", 1)))
 				add("second-generation-k2", merge(base, p("premerge", 2, "k", 2, "ops", opPut|opDelete, "vlens", 1)))
 				add("adopted-under-other-configuration-k2", merge(base, p("k", 2, "ops", opPut|opDelete, "vlens", 1, "post", 1, "r_io", 2, "r_index", 2, "r_shards", 3, "r_dfs_lo", 20, "r_dfs_hi", 60)))
+				add("adopted-under-other-spelling-k2", merge(base, p("spelling", 1, "k", 2, "ops", opPut|opDelete, "vlens", 1, "post", 1)))
+				add("second-generation-other-spelling-k2", merge(base, p("spelling", 1, "premerge", 2, "k", 2, "ops", opPut|opDelete, "vlens", 1)))
 				add("skiplist-s2-k2", merge(base, p("k", 2, "ops", opPut|opDelete, "index", 2, "shards", 2, "post", 1)))
 				add("twelve-files-k1", merge(base, p("fill", 12, "k", 1, "ops", opPut|opDelete, "vlens", 1, "dfs_lo", 20, "dfs_hi", 20, "post", 1)))
 				add("cfgsweep-k2", merge(base, p("cfgsweep", 2, "k", 2, "ops", opPut|opDelete, "vlens", 1, "dfs_lo", 40, "dfs_hi", 40, "post", 1)))
@@ -849,6 +855,7 @@ func init() {
 				add("list-restart-k4", p("k", 4, "keys", 1, "cmds", cLPush|cLPop|cDel|cRestart))
 				add("zset-btree-k3", p("k", 3, "keys", 1, "cmds", cZAdd|cZScore|cDel, "index", 1, "nscores", 2))
 				add("zset-close-scores-k3", p("k", 3, "keys", 1, "cmds", cZAdd|cZScore, "scoreset", 1, "nscores", 2))
+				add("string-negative-ttl-k3", p("k", 3, "keys", 1, "cmds", cSet|cGet|cType|cHSet|cLPush|cRestart, "negttl", 1))
 				add("set-type-k3", p("k", 3, "keys", 1, "cmds", cSAdd|cSRem|cSIsMember|cDel|cType|cSet))
 				add("all-types-merge-restart-k3", p("k", 3, "keys", 1, "cmds", cSet|cGet|cHSet|cHGet|cSAdd|cSIsMember|cLPush|cLPop|cZAdd|cZScore|cRestart, "mergerestart", 1, "nscores", 1))
 				// empty values and the empty field/member name are values/names like any other
